@@ -38,6 +38,8 @@ pub struct Digest {
     pub log: Option<String>,
     pub next_random_word: Option<u64>,
     pub rng_config: Option<(String, u64)>,
+    /// states written by measuring components: (name, diversity bits, maximal diversity bits)
+    pub measures: Vec<(&'static str, u64, u64)>,
 }
 
 pub struct RunReport {
@@ -82,6 +84,20 @@ pub fn digest_of<P: HProblem>(state: &State<P>, tag: &str) -> Digest {
             d.log = std::fs::read(&path).ok().and_then(|b| simio::decode_json(&b).ok()).map(|l| format!("{l:?}"));
             let _ = std::fs::remove_file(&path);
         }
+    }
+    {
+        use mahf::components::diversity::{DimensionWiseDiversity, DistanceToAveragePointDiversity, Diversity, PairwiseDistanceDiversity, TrueDiversity};
+        macro_rules! measure {
+            ($I:ty, $name:expr) => {
+                if let Ok(m) = state.try_borrow::<Diversity<$I>>() {
+                    d.measures.push(($name, m.diversity.to_bits(), m.max_diversity.to_bits()));
+                }
+            };
+        }
+        measure!(DimensionWiseDiversity, "dimension-wise diversity");
+        measure!(PairwiseDistanceDiversity, "pairwise-distance diversity");
+        measure!(TrueDiversity, "true diversity");
+        measure!(DistanceToAveragePointDiversity, "distance-to-average-point diversity");
     }
     if let Ok(mut r) = state.try_borrow_mut::<Random>() {
         d.rng_config = Some((r.config().name.to_string(), r.config().seed));
